@@ -46,7 +46,7 @@ m = dict(
     ],
     checks=checks,
     not_applicable=[dict(property_id=p, reason=DISABLED.get(p, PENDING_REASON)) for p in ALL if p not in PROPS],
-    notes="See DESIGN.md. known_findings.json lists recorded findings and fixed defects.",
+    notes="See DESIGN.md (sections 9, 12, 13, 14 are the record of the result). known_findings.json lists recorded findings and fixed defects. hooks.add_only refers to the repository's own lines: the 'verif hooks:' commits only add cfg(rustdds_verif)-gated items and statements; three of them (91c9a3f, a1c41cd, d51fddf) also re-tag or move lines that earlier hook commits had added. With --cfg rustdds_verif_only plus --cfg rustdds_verif_cNN only the hook blocks of single properties are compiled (isolated fallback build of ./check).",
 )
 json.dump(m, open("MANIFEST.json", "w"), indent=1)
 print("claimed:", sorted(PROPS))
